@@ -720,6 +720,13 @@ impl ActorCell {
         self.inner.verif_admission_word()
     }
 
+    /// `(stop port open, signal port open)`: whether a `stop()` / `kill()` issued now would be
+    /// accepted (verification hook; the harness then calls the public method itself)
+    #[cfg(feature = "verif")]
+    pub fn verif_ports_open(&self) -> (bool, bool) {
+        self.inner.verif_ports_open()
+    }
+
     /// `kill()` that reports whether the signal port accepted the signal (verification hook)
     #[cfg(feature = "verif")]
     pub fn verif_kill(&self) -> bool {
